@@ -1,6 +1,7 @@
 import JrsVerif.Common.J
 import JrsVerif.Model.Fmt
 import JrsVerif.Model.FmtWf
+import JrsVerif.Model.FmtWfS
 
 namespace JrsVerif.Drv.C19
 open Lean JrsVerif.J JrsVerif.Fmt
@@ -50,6 +51,12 @@ def handle (op : String) (j : Json) : Option Json :=
         let c : Case := { declined := false, panicked := false, inAst := i, outAst := o,
                           inToks := it, outToks := ot, evalSame := evalSame, binSame := binSame }
         let wfOk := wf i && (match o with | some t => wf t | none => true)
+        -- the table-driven grammar (about which `norm_preserves_wellformed` is proved) must agree
+        -- with the pattern-matching one on every tree, and hold for the normal forms as well
+        let wfTab := wfProg i && (match o with | some t => wfProg t | none => true)
+        let wfNorm := wfProg (norm i) && (match o with | some t => wfProg (norm t) | none => true)
+        if wfOk != wfTab then some (bad "fmt.validate: Fmt.wf and Fmt.wfS disagree on a serialised tree (grammar table out of step)") else
+        if wfOk && !wfNorm then some (bad "fmt.validate: normal form outside the shape grammar (contradicts norm_preserves_wellformed: driver/model out of step)") else
         if !wfOk then some (bad "fmt.validate: serialised tree outside the shape grammar (walker/model encoding mismatch)") else
         let fails :=
           (if o.isNone then ["reparse"] else if !c.astOk then ["ast"] else []) ++
